@@ -1435,14 +1435,18 @@ func (val Value) GreaterThan(other Value) Value {
 	return BoolVal(val.v.(*big.Float).Cmp(other.v.(*big.Float)) > 0)
 }
 
-// LessThanOrEqualTo is equivalent to LessThan and Equal combined with Or.
+// LessThanOrEqualTo is equivalent to "not GreaterThan" and Equal combined with
+// Or. (Using "not GreaterThan" rather than LessThan makes the result True for
+// two numbers that have exactly the same value but are stored at different
+// precisions, which Equals can consider to be different.)
 func (val Value) LessThanOrEqualTo(other Value) Value {
-	return val.LessThan(other).Or(val.Equals(other))
+	return val.GreaterThan(other).Not().Or(val.Equals(other))
 }
 
-// GreaterThanOrEqualTo is equivalent to GreaterThan and Equal combined with Or.
+// GreaterThanOrEqualTo is equivalent to "not LessThan" and Equal combined with
+// Or. (See LessThanOrEqualTo.)
 func (val Value) GreaterThanOrEqualTo(other Value) Value {
-	return val.GreaterThan(other).Or(val.Equals(other))
+	return val.LessThan(other).Not().Or(val.Equals(other))
 }
 
 // AsString returns the native string from a non-null, non-unknown cty.String
